@@ -862,4 +862,181 @@ theorem css_declaration_retokenises (o : Opts) (prop : List Char) (comps : List 
   exact css_writer_retokenises p.toks p.important k hv hk
 
 
+/-! ## the tokens of the output are admissible again; block structure -/
+
+/-- a token of the output: the parser's single space, the `url(` in front of a quoted url, or a closed token of its
+    type that is neither a bad-string nor a bad-url -/
+def tokFine (x : Token) : Prop :=
+  x = (.whitespace, [' ']) ∨ x = (.function, ['u', 'r', 'l', '(']) ∨
+  (lexOk x.1 x.2 = true ∧ x.1 ≠ .badString ∧ x.1 ≠ .badUrl)
+
+theorem rparen_fine : tokFine (.rightParen, [')']) := Or.inr (Or.inr ⟨by decide, by decide, by decide⟩)
+
+theorem urlToks_fine (data : List Char) (h : urlOk data = true) : ∀ x ∈ urlToks data, tokFine x := by
+  simp only [urlOk] at h
+  simp only [urlToks]
+  cases hq : quotedUrl data with
+  | none =>
+    rw [hq] at h
+    simp only [Bool.and_eq_true] at h
+    intro x hx
+    simp only [List.mem_singleton] at hx
+    subst hx
+    exact Or.inr (Or.inr ⟨h.1, by simp, by simp⟩)
+  | some s =>
+    rw [hq] at h
+    intro x hx
+    simp only [List.mem_cons, List.mem_nil_iff, or_false] at hx
+    rcases hx with hx | hx | hx
+    · subst hx; exact Or.inr (Or.inl rfl)
+    · subst hx; exact Or.inr (Or.inr ⟨h, by simp, by simp⟩)
+    · subst hx; exact rparen_fine
+
+mutual
+theorem flat_tok_fine : ∀ (t : Tok), tokOk t = true → ∀ x ∈ flatTok t, tokFine x
+  | .mk tt data args, hok, x, hx => by
+    by_cases hf : tt = .function
+    · subst hf
+      simp only [tokOk, beq_self_eq_true, if_true, Bool.and_eq_true] at hok
+      simp only [flatTok, beq_self_eq_true, if_true, List.mem_cons, List.mem_append, List.mem_nil_iff, or_false] at hx
+      rcases hx with hx | hx | hx
+      · subst hx; exact Or.inr (Or.inr ⟨hok.1.1, by simp, by simp⟩)
+      · exact flat_args_fine args hok.2 x hx
+      · subst hx; exact rparen_fine
+    · by_cases hu : tt = .url
+      · subst hu
+        simp only [tokOk] at hok
+        simp only [flatTok] at hx
+        exact urlToks_fine data (by simpa using hok) x (by simpa using hx)
+      · have e2 : flatTok (.mk tt data args) = [(tt, data)] := by simp [flatTok, hf, hu]
+        rw [e2, List.mem_singleton] at hx
+        subst hx
+        simp only [tokOk, beq_eq_false_iff_ne.mpr hf, beq_eq_false_iff_ne.mpr hu, Bool.false_eq_true, if_false] at hok
+        by_cases hs : tt = .string
+        · subst hs
+          exact Or.inr (Or.inr ⟨by simpa using hok, by simp, by simp⟩)
+        simp only [beq_eq_false_iff_ne.mpr hs, Bool.false_eq_true, if_false] at hok
+        by_cases hw : tt = .whitespace
+        · subst hw
+          have : data = [' '] := by simpa using hok
+          subst this; exact Or.inl rfl
+        simp only [beq_eq_false_iff_ne.mpr hw, Bool.false_eq_true, if_false, Bool.and_eq_true] at hok
+        have hp := plain_of_isPlain hok.1.1
+        exact Or.inr (Or.inr ⟨hok.1.2, hp.2.2.2.1, hp.2.2.2.2.2.1⟩)
+theorem flat_args_fine : ∀ (args : List Tok), argsOk args = true → ∀ x ∈ flatArgs args, tokFine x
+  | [], _, x, hx => by simp [flatArgs] at hx
+  | t :: r, h, x, hx => by
+    obtain ⟨ht, hr, _⟩ := argsOk_cons t r h
+    simp only [flatArgs, List.mem_append] at hx
+    rcases hx with hx | hx
+    · exact flat_tok_fine t ht x hx
+    · exact flat_args_fine r hr x hx
+end
+
+theorem flat_vals_fine : ∀ (vs : List Tok), valsOk vs = true → ∀ x ∈ flatArgs vs, tokFine x := by
+  intro vs
+  induction vs with
+  | nil => intro _ x hx; simp [flatArgs] at hx
+  | cons t r ih =>
+    intro h x hx
+    simp only [valsOk, List.all_cons, Bool.and_eq_true] at h
+    simp only [flatArgs, List.mem_append] at hx
+    rcases hx with hx | hx
+    · exact flat_tok_fine t h.1.1 x hx
+    · exact ih h.2 x hx
+
+theorem mem_significant {x : Token} {l : List Token} (h : x ∈ significant l) : x ∈ l := by
+  simp only [significant, List.mem_filter] at h; exact h.1
+
+/-- **css_second_pass_tokens** (C09 item 5, first half) — for all admissible values, every `important` flag and
+    every context `k` starting with a stop code point: each significant token the independent tokeniser reads in the
+    written declaration (up to the tokens of `k`) is again a closed token of its type (`lexOk`; or the `url(` of a
+    quoted url) and none is a bad-string or bad-url: the token list of the output satisfies the lexer contract under
+    which `css_writer_retokenises` was stated, so the statement applies to the second pass again. -/
+theorem css_second_pass_tokens (vs : List Tok) (important : Bool) (k : List Char)
+    (hv : valsOk vs = true) (hk : stopStr k = true) :
+    ∃ n' E, k.length ≤ n' ∧
+      significant (tokenise (writeDeclaration vs important ++ k)) = E ++ significant (tokAux n' k []) ∧
+      ∀ x ∈ E, tokFine x := by
+  obtain ⟨n', hn', e⟩ := css_writer_retokenises vs important k hv hk
+  refine ⟨n', significant (flatArgs vs) ++ importantToks important, hn', e, ?_⟩
+  intro x hx
+  rcases List.mem_append.mp hx with hx | hx
+  · exact flat_vals_fine vs hv x (mem_significant hx)
+  · cases important with
+    | false => simp [importantToks] at hx
+    | true =>
+      simp only [importantToks, if_true, List.mem_cons, List.mem_nil_iff, or_false] at hx
+      rcases hx with hx | hx <;> subst hx <;> exact Or.inr (Or.inr ⟨by decide, by decide, by decide⟩)
+
+/-! ### block structure -/
+
+theorem balance_append : ∀ (a b : List Token) (st st' : List TT),
+    balance a st = some st' → balance (a ++ b) st = balance b st' := by
+  intro a
+  induction a with
+  | nil => intro b st st' h; simp only [balance] at h; cases h; rfl
+  | cons t a ih =>
+    intro b st st' h
+    simp only [List.cons_append, balance] at h ⊢
+    by_cases h1 : isOpen t.1 = true
+    · simp only [h1, if_true] at h ⊢; exact ih b _ _ h
+    · simp only [h1, Bool.false_eq_true, if_false] at h ⊢
+      by_cases h2 : isClose t.1 = true
+      · simp only [h2, if_true] at h ⊢
+        cases st with
+        | nil => simp at h
+        | cons o st0 =>
+          simp only at h ⊢
+          by_cases h3 : closes o t.1 = true
+          · simp only [h3, if_true] at h ⊢; exact ih b _ _ h
+          · simp [h3] at h
+      · simp only [h2, Bool.false_eq_true, if_false] at h ⊢; exact ih b _ _ h
+
+theorem hasBad_of_fine (l : List Token) (h : ∀ x ∈ l, tokFine x) : hasBad l = false := by
+  simp only [hasBad, List.any_eq_false, Bool.or_eq_true, beq_iff_eq, not_or]
+  intro x hx
+  rcases h x hx with h1 | h1 | h1
+  · subst h1; exact ⟨by decide, by decide⟩
+  · subst h1; exact ⟨by decide, by decide⟩
+  · exact ⟨h1.2.1, h1.2.2⟩
+
+/-- **css_declaration_closed** — for all admissible values whose brackets match (the functions get their `)` from the
+    writer; `balance` of the chosen tokens is a decidable hypothesis) and both declaration terminators `c` = `;` and
+    `c` = `}`: the written value followed by `c` is read as tokens `E` followed by exactly the terminator token, where
+    `E` has every bracket closed and contains no bad-string and no bad-url: the value neither swallows its terminator
+    (no unterminated string, url, comment or escape) nor opens or closes a block.  Covers the writer of values
+    (`writeDeclaration`); selectors, at-rule preludes and the raw path are judged on the real output by the harness. -/
+theorem css_declaration_closed (vs : List Tok) (important : Bool) (c : Char) (hc : c = ';' ∨ c = '}')
+    (hv : valsOk vs = true) (hb : balance (significant (flatArgs vs)) [] = some []) :
+    ∃ E, significant (tokenise (writeDeclaration vs important ++ [c])) =
+        E ++ [(if c = ';' then TT.semicolon else TT.rightBrace, [c])] ∧
+      balance E [] = some [] ∧ hasBad E = false := by
+  have hk : stopStr [c] = true := by rcases hc with h | h <;> subst h <;> decide
+  obtain ⟨n'', hn'', e2⟩ := css_writer_retokenises vs important [c] hv hk
+  refine ⟨significant (flatArgs vs) ++ importantToks important, ?_, ?_, ?_⟩
+  · rw [e2]
+    congr 1
+    obtain ⟨m, rfl⟩ : ∃ m, n'' = m + 1 := ⟨n'' - 1, by simp at hn''; omega⟩
+    have hnil : ∀ (m : Nat) (acc : List Token), tokAux m [] acc = acc.reverse := by
+      intro m acc; cases m <;> rfl
+    rcases hc with h | h <;> subst h <;> simp [tokAux, next, isWs, isQuote, significant, hnil]
+  · rw [balance_append _ _ _ _ hb]
+    cases important <;> simp [importantToks, balance, isOpen, isClose]
+  · apply hasBad_of_fine
+    intro x hx
+    rcases List.mem_append.mp hx with hx | hx
+    · exact flat_vals_fine vs hv x (mem_significant hx)
+    · cases important with
+      | false => simp [importantToks] at hx
+      | true =>
+        simp only [importantToks, if_true, List.mem_cons, List.mem_nil_iff, or_false] at hx
+        rcases hx with hx | hx <;> subst hx <;> exact Or.inr (Or.inr ⟨by decide, by decide, by decide⟩)
+
+example : valsOk [.mk .function (S "f(") [.mk .leftParen (S "(") [], .mk .ident (S "a") [], .mk .rightParen (S ")") []],
+      .mk .string (S "\"}\"") []] = true ∧
+    balance (significant (flatArgs [.mk .function (S "f(") [.mk .leftParen (S "(") [], .mk .ident (S "a") [],
+      .mk .rightParen (S ")") []], .mk .string (S "\"}\"") []])) [] = some [] := by decide
+
+
 end Verif.Proofs.C09Css
